@@ -241,7 +241,10 @@ func runGen(c *ctx, co *corpus, tags string, per int, race bool) *genAgg {
 	vc.RunChildren("/usr/bin/env", co.Dir, args, env, 16, 15*time.Minute, stop, func(i int, r vc.ChildResult) {
 		j := jobs[i]
 		b, err := os.ReadFile(j.out)
-		if err != nil || r.ExitCode != 0 {
+		// Under the race detector (halt_on_error=0) a process that saw a race runs
+		// to the end and exits with status 66: its results are good, and the race
+		// reports are collected from the log files.
+		if err != nil || (r.ExitCode != 0 && !(race && r.ExitCode == 66)) {
 			last := lastBegin(j.prog)
 			if r.TimedOut {
 				c.R.Inconclusive(fmt.Sprintf("engine G child [%d..%d) exceeded the hard time limit at %s", j.from, j.from+j.count, last))
